@@ -63,7 +63,33 @@ def r1(p, rep):
         ok = bool(r and r[0] == "func" and r[1].name == "id" and r[1].module.name.endswith("frontend.ops"))
         probs = forwarded(g, rets[0].value, skip=()) if ok else ["does not call einx.id"]
         # backend is keyword-only in rearrange: forwarded() checks backend=backend
+        aliases(p, rep)
         rep.add("C07.R1", f"{g.qualname}:forwards", g.loc, ok and not probs, "einx.rearrange(description, *tensors, backend=, **parameters) == einx.id(same)" if ok and not probs else f"einx.rearrange is not einx.id: {probs}")
+
+
+def aliases(p, rep, rid="C07.R1"):
+    """module-level functions of the frontend whose whole body is `return other(...)` with the same parameter list
+    (einx.solve -> solve_axes, ...): pure aliases must hand every parameter on"""
+    n = 0
+    for f in p.funcs.values():
+        if f.parent is not None or f.cls is not None or not f.module.name.startswith("einx._src.frontend.") or f.name.startswith("_"):
+            continue
+        body = [st for st in f.node.body if not (isinstance(st, ast.Expr) and isinstance(st.value, ast.Constant))]
+        if len(body) != 1 or not isinstance(body[0], ast.Return) or not isinstance(body[0].value, ast.Call) or f.node.decorator_list:
+            continue
+        call = body[0].value
+        r = resolve_callee(p, call, f.module)
+        if not (r and r[0] == "func" and r[1].parent is None):
+            continue
+        g = r[1]
+        ga, fa = g.node.args, f.node.args
+        # an alias: the target takes the same kinds of parameters (*args / **kwargs alike)
+        if bool(ga.vararg) != bool(fa.vararg) or bool(ga.kwarg) != bool(fa.kwarg) or not (fa.vararg or fa.kwarg):
+            continue
+        n += 1
+        probs = forwarded(f, call, skip=())
+        rep.add(rid, f"{f.qualname}:alias-forwards", f.loc, not probs, f"{f.name}(...) == {g.name}(same arguments)" if not probs else f"{f.name} is documented as an alias of {g.name} but does not hand on its arguments: {probs} - e.g. size keywords given to the alias are silently ignored")
+    return n
 
 
 def r2(p, rep):
